@@ -626,7 +626,7 @@ func (h *lockHarness) do(op J) J {
 			if h.dead == "" {
 				ev = h.awaitOwn(id)
 			}
-		} else {
+		} else if ev.kind != "dead" {
 			// r made fewer log calls than that before it reached its select (or returned): the release happens here
 			r.log.disarm()
 			ho = "no-such-yield"
